@@ -126,6 +126,7 @@ def check_step_order(chk, ix):
             chk.ok("S5", {"variant": variant, "background_steps": "fresh reset copies per scenario"}, nontrivial_key=variant)
     chk.absorb(it)
     check_row_background_steps(chk, ix)
+    check_step_for_row_is_a_copy(chk, ix)
     chk.require_instances("S4", 4)
     chk.require_instances("S5", 5)
 
@@ -331,3 +332,44 @@ def check_continue_switch_is_class_level(chk, ix):
                              "after Scenario.continue_after_failed_step = %s (set on the class, as documented for before_all) a scenario that was "
                              "parsed earlier reads %r: the switch has no effect on the features of the run" % (value, [(k, v) for _, k, v in got][:2]),
                              file=init.file, line=init.lineno, stmt="def __init__"))
+
+
+
+def check_step_for_row_is_a_copy(chk, ix):
+    """S5 (row steps): ScenarioOutlineBuilder.make_step_for_row evaluated on steps with and without placeholders, text and
+    table: what it returns is never the template's own Step object (every row runs - and reports - its own steps)."""
+    chk.rule("S5", WHAT["S5"])
+    bc = ix.cls("behave.model:ScenarioOutlineBuilder")
+    f = bc.lookup("make_step_for_row")
+    if f is None:
+        raise AnalysisError("anchor missing: ScenarioOutlineBuilder.make_step_for_row")
+    stc = ix.cls("behave.model:Step")
+    for title, name, text in (("plain step", "a plain step", None), ("step with a placeholder", "a <thing>", None), ("plain step with text", "a step", "doc <x>")):
+        counter = {"copies": 0}
+        stubs = _stubs(counter)
+        it = Interp(ix, stubs=stubs, name="make_step_for_row")
+        it.int_sat = 100
+        it.list_cap = 100
+        it.fold_regex = True
+        st = State()
+        st.frames = []
+        step = st.alloc(HObj(stc, {"name": name, "text": text, "table": None, "keyword": "Given", "step_type": "given", "origin": "template",
+                                   "is_copy": False, "was_reset": False}, label="template step"))
+        row = st.alloc(HObj("dict", kind="dict", items=[("thing", "apple"), ("x", "1")], label="row"))
+        it.stubs["RowTok.items"] = lambda i, s_, a, k, n: [(s_, "val", (("thing", "apple"), ("x", "1")))]
+        rowtok = st.alloc(HObj("RowTok", {}, open=True, label="row"))
+        try:
+            outs = it.call_function(st, f, [step, rowtok, None], {}, None, self_val=ClassVal(bc))
+        except AnalysisError as e:
+            raise AnalysisError("make_step_for_row not evaluable (%s): %s" % (title, e))
+        chk.absorb(it)
+        chk.instance("S5")
+        if len(outs) != 1 or outs[0][1] != "val" or not isinstance(outs[0][2], Ref):
+            raise AnalysisError("make_step_for_row not evaluable (%s): %r" % (title, [(k, v) for _, k, v in outs][:3]))
+        if outs[0][2].oid != step.oid:
+            chk.ok("S5", {"template step": title, "row step": "a copy"}, nontrivial_key=("row step", title))
+        else:
+            chk.fail(Finding("S5", f.fullname, "%s: the template's own Step" % title,
+                             "make_step_for_row returns the outline's own Step object for a %s: all rows share it, so the status, duration and error of "
+                             "one row's step overwrite the other rows' (reports show a failed row as passed, or the reverse)" % title,
+                             file=f.file, line=f.lineno, stmt="def make_step_for_row"))
